@@ -73,7 +73,7 @@ From Coq Require Import List NArith Bool String.
 Open Scope string_scope.
 From ApiFu Require Import Base.Sexp Gen.GoTypes Gen.ClientGenModel Gen.DecodeModel Gen.ClientGenSpec
      Gen.ClientGenMain Gen.ClientGenWitness Gen.ClientGenDeclSafe Gen.LoadSchemaModel Gen.LoadSchemaProofs
-     Gen.ClientGenAgree Gen.ClientGenFresh Gen.ClientGenClauses Gen.ClientGenTopS Gen.ClientGenWfS.
+     Gen.ClientGenAgree Gen.ClientGenFresh Gen.ClientGenClauses Gen.ClientGenTopS Gen.ClientGenWfS Gen.DecodeAbsent.
 Import ListNotations.
 
 (** the generator of the current tree accepts every operation of the envelope and its output is well
@@ -197,6 +197,18 @@ Theorem C20_gen_identifiers : forall D S d p,
    NoDup (flat_map (fun x => sel_names (td_type x)) (p_defs p))).
 Proof. exact real_s_idents. Qed.
 
+(** @include / @skip: the generator ignores directives (the type is that of the operation without
+    them, which is what the theorems are about), the executor leaves out the keys of the selections
+    that are skipped.  A struct field that no key of the response object is decoded into holds the
+    zero value of its type - the statement about the decoder model; the correspondence check runs
+    the real decoder on real responses with the conditions true and false. *)
+Theorem C20_absent_key_zero_value : forall dec fs kvs sv' i fld,
+  decode_struct dec fs (JObj kvs) = DOk sv' ->
+  nth_error fs i = Some fld ->
+  (forall k v, In (k, v) kvs -> field_for_key fs k <> Some i) ->
+  nth_error sv' i = Some (gf_name fld, gf_tag fld, zero (gf_type fld)).
+Proof. exact decode_struct_absent. Qed.
+
 (** operations that fail validation are rejected and nothing is generated (whatever the flags) *)
 Theorem C20_gen_invalid_no_output : forall Q S d,
   doc_valid S d = false -> generate Q S (doc_valid S d) d = GRejected.
@@ -296,6 +308,7 @@ Print Assumptions C20_enum_const_names_distinct.
 Print Assumptions C20_gen_wf_clauses.
 Print Assumptions C20_gen_accepts_structs.
 Print Assumptions C20_gen_decodes.
+Print Assumptions C20_absent_key_zero_value.
 Print Assumptions C20_gen_identifiers.
 Print Assumptions C20_generators_agree.
 Print Assumptions C20_fixed_member_name_clash.
